@@ -59,6 +59,10 @@ typedef colvarproxy_stub_t colvarproxy;
 #define CID_INTERPOLATE 13
 #define CID_WIDTH 14
 #define CID_USER 15
+#define CID_ACOS 40
+#define CID_SIN 41
+#define CID_COS 42
+#define CID_FABS 43
 struct colvarmodule {
 #ifdef CVS_SREAL
   typedef sreal real;
@@ -79,6 +83,10 @@ struct colvarmodule {
   static real floor(real const &x) { return sreal_call(CID_FLOOR, x.nid()); }
   static real sqrt(real const &x) { return sreal_call(CID_SQRT, x.nid()); }
   static real exp(real const &x) { return sreal_call(CID_EXP, x.nid()); }
+  static real acos(real const &x) { return sreal_call(CID_ACOS, x.nid()); }
+  static real sin(real const &x) { return sreal_call(CID_SIN, x.nid()); }
+  static real cos(real const &x) { return sreal_call(CID_COS, x.nid()); }
+  static real fabs(real const &x) { return sreal_call(CID_FABS, x.nid()); }
 #else
   static real pow(real const &x, real const &y) { return k_pow(x, y); }
   static real floor(real const &x) { return k_floor(x); }
